@@ -275,13 +275,14 @@ def model_workload(w):
 
 
 BUGS_OFF = {"BugRequeueAll": False, "BugStaleSwitch": False, "BugResubBehind": False,
-            "BugPubrelDemote": False, "BugRetryNoTimeout": False, "BugSubDup": False}
+            "BugPubrelDemote": False, "BugRetryNoTimeout": False, "BugSubDup": False,
+            "BugHandleAfterConnect": False, "BugHandleNotForwarded": False}
 ALL_INVARIANTS = ["NoDupQoS2", "NoLoss", "DupFlag", "NoPubAfterRel", "NoTxAfterDone", "OrderPerConn", "FirstTxOrder",
                   "NoQoS0Retx", "StableDone", "DeliveredOnce", "StableSubs", "WaitArmed"]
 
 
 def mc_retry(workload, faults=2, deliver_on_rel=False, sessions=(True,), always_resub=False, resp_timeout=False,
-             bugs=None, invariants=None, props=(), workers=None, timeout=600, heap="12g"):
+             bugs=None, invariants=None, props=(), workers=None, timeout=600, heap="12g", handlers=(), inbound=0):
     """Exhaustively check one MqttRetry instance.  Returns the TLCResult."""
     consts = dict(BUGS_OFF)
     consts.update(bugs or {})
@@ -289,11 +290,11 @@ def mc_retry(workload, faults=2, deliver_on_rel=False, sessions=(True,), always_
     if not all(sessions):
         # exactly-once delivery presupposes a broker that keeps the session
         inv = [i for i in inv if i not in ("NoDupQoS2", "DeliveredOnce")]
-    mc = "---- MODULE MCRetry ----\nEXTENDS MqttRetry\nWL == %s\nSESS == %s\n====\n" % (
-        tla(model_workload(workload)), tla(set(sessions)))
+    mc = "---- MODULE MCRetry ----\nEXTENDS MqttRetry\nWL == %s\nSESS == %s\nHS == %s\n====\n" % (
+        tla(model_workload(workload)), tla(set(sessions)), tla(list(handlers)))
     cfg = ["SPECIFICATION Spec", "CONSTANTS", "  Workload <- WL", "  MaxFaults = %d" % faults, "  MaxGen = %d" % (faults + 1),
            "  DeliverOnRel = %s" % tla(deliver_on_rel), "  SessionChoices <- SESS", "  AlwaysResub = %s" % tla(always_resub),
-           "  RespTimeout = %s" % tla(resp_timeout)]
+           "  RespTimeout = %s" % tla(resp_timeout), "  Handlers <- HS", "  MaxInbound = %d" % inbound]
     cfg += ["  %s = %s" % (k, tla(v)) for k, v in consts.items()]
     cfg += ["CHECK_DEADLOCK FALSE"]
     if inv:
@@ -316,6 +317,8 @@ BUG_SELFTEST = [
     ("BugResubBehind", dict(workload=[SUB(("x", 1)), PUB(1), UNSUB("x")], faults=2, sessions=(True, False)), {"StableSubs"}),
     ("BugRetryNoTimeout", dict(workload=[PUB(1)], faults=2, resp_timeout=True), {"WaitArmed"}),
     ("BugSubDup", dict(workload=[SUB(("x", 0)), SUB(("x", 1)), UNSUB("x")], faults=1, sessions=(True, False)), {"StableSubs"}),
+    ("BugHandleAfterConnect", dict(workload=[PUB(1)], faults=1, handlers=(1,), inbound=2, invariants=["HandlerFollows"]), {"HandlerFollows"}),
+    ("BugHandleNotForwarded", dict(workload=[PUB(1)], faults=1, handlers=(1, 2), inbound=2, invariants=["HandlerFollows"]), {"HandlerFollows"}),
 ]
 
 
@@ -398,10 +401,11 @@ def l2_validate(scenarios, results, max_groups=None, timeout=600):
         mwl, dor, ar, rt = key
         ids = groups[key]
         text = "\n".join(json.dumps({"id": i, "evs": l2_trace(results[i])}, sort_keys=True) for i in ids) + "\n"
-        mc = "---- MODULE MCTrace ----\nEXTENDS TraceRetry\nWL == %s\n====\n" % tla(json.loads(mwl))
+        mc = "---- MODULE MCTrace ----\nEXTENDS TraceRetry\nWL == %s\nHS == << >>\n====\n" % tla(json.loads(mwl))
         cfg = ["SPECIFICATION TSpec", "CONSTANTS", "  Workload <- WL", "  MaxFaults = 8", "  MaxGen = 9", "  DeliverOnRel = %s" % tla(dor),
                "  SessionChoices = {TRUE, FALSE}", "  AlwaysResub = %s" % tla(ar), "  RespTimeout = %s" % tla(rt)]
         cfg += ["  %s = FALSE" % b for b in BUGS_OFF]
+        cfg += ["  Handlers <- HS", "  MaxInbound = 0"]
         cfg += ["CHECK_DEADLOCK FALSE", "CONSTRAINT HW", "POSTCONDITION Report"]
         r = vlib.tlc("MCTrace", cfg="MCTrace.cfg", files={"MCTrace.tla": mc, "MCTrace.cfg": "\n".join(cfg) + "\n", "l2traces.ndjson": text},
                      workers=1, timeout=timeout, deque=True, heap="3g")
